@@ -24,7 +24,8 @@ def build_term(spec):
         if isinstance(v, dict) and '__set__' in v: kw[k] = set(v['__set__'])
     return getattr(mt, TERM_ALIAS.get(t, t))(**kw)
 
-REDUCERS = {'max': max, 'min': min, 'first': (lambda v: v[0]), 'sum': sum}
+REDUCERS = {'max': max, 'min': min, 'first': (lambda v: v[0]), 'sum': sum,
+            'sumsq': (lambda v: sum(float(a) * float(a) for a in v)), 'sumabs': (lambda v: sum(abs(float(a)) for a in v))}
 
 def reducer_fn(name):
     return REDUCERS[name]
